@@ -116,7 +116,11 @@ def run_instance(prog, db, classmap, cname, con, cargs, budget=6000):
                 extra = [Native(lambda it_, a, k, n: (a[0].method(it_, 'load_snake_bytes', [], {}, n), Sym('parsed'))[1], 'deserializer')]
             try:
                 res = it.call(Bound(cls, FuncRef(fn, c.module, c)), [first] + extra, {})
-                if sl.only_any():
+                subleft = [x for x in getattr(it, 'subslices', []) if x.trace and not x.only_any()]
+                if sl.only_any() and subleft:
+                    x = subleft[0]
+                    kind, detail = 'leftover', f'the cell of `{x.label}` is opened with begin_parse() and left with unread ' + '; '.join(x.remaining_desc())[:200]
+                elif sl.only_any():
                     bad = routing_problem(con, res)
                     if bad:
                         kind, detail = 'route', bad
